@@ -231,7 +231,7 @@ func runC16Case(r *ev.Run, c c16Case) {
 			return
 		}
 		sc.SetLogger(lg)
-		if c.Fault != "client-debug-on" { // client-debug-on: logging is switched on while the exchange runs
+		if c.Fault != "client-debug-on" && c.Fault != "client-debug-after" { // client-debug-on: logging is switched on while the exchange runs
 			sc.SetDebugLog(true)
 		}
 		if c.OptIn {
@@ -251,6 +251,11 @@ func runC16Case(r *ev.Run, c c16Case) {
 			r.Count("auth_retries_on_same_client", 1)
 			aerr = sc.Auth(c16Auth(c))
 		}
+		if c.Fault == "client-debug-after" {
+			// the exchange ran with the debug log off; it is switched on for the traffic that follows
+			sc.SetDebugLog(true)
+			atomic.StoreInt32(&debugSwitchedOn, 1)
+		}
 		if aerr == nil {
 			if sc.Mail(marker+"@sender.example") == nil {
 				_ = sc.Rcpt(marker + "@rcpt.example")
@@ -264,6 +269,9 @@ func runC16Case(r *ev.Run, c c16Case) {
 			r.HarnessError("C16 NewClient: " + err.Error())
 			return
 		}
+		if c.Fault == "client-debug-after" {
+			cl.SetDebugLog(false) // (before the dial-up: the Client starts without debug log)
+		}
 		if c.ExplicitOff {
 			cl.SetLogAuthData(false)
 		}
@@ -272,6 +280,10 @@ func runC16Case(r *ev.Run, c c16Case) {
 		dialErr := cl.DialWithContext(ctx)
 		cancel()
 		if dialErr == nil {
+			if c.Fault == "client-debug-after" {
+				cl.SetDebugLog(true)
+				atomic.StoreInt32(&debugSwitchedOn, 1)
+			}
 			_ = cl.Send(msg)
 			_ = cl.Close()
 		}
@@ -363,7 +375,7 @@ func runC16Case(r *ev.Run, c c16Case) {
 				sawMail = true
 			}
 		}
-		lateDebug := c.Fault == "client-debug-on"
+		lateDebug := c.Fault == "client-debug-on" || c.Fault == "client-debug-after"
 		if lateDebug && atomic.LoadInt32(&debugSwitchedOn) == 0 {
 			sawMail = false // logging never came on in this run
 		}
@@ -397,7 +409,7 @@ func faultName(c c16Case) string {
 
 func runC16(r *ev.Run, rep *ev.ReplayDoc) ev.Summary {
 	sum := ev.Summary{
-		Rule: "all mechanisms (PLAIN, LOGIN, CRAM-MD5, XOAUTH2, SCRAM-SHA-1/-256, -PLUS over TLS) x random high-entropy credentials (also with '%', blanks, non-ASCII, base64 specials) x server scripts {success, wrong password, 535 / 454 / malformed (non-base64) challenge / unexpected extra challenge / the user-name prompt repeated in place of the expected challenge / disconnect at every step of the exchange, the client closed or quit - or its debug log switched on - by another goroutine between two steps, Auth called again on the same smtp.Client after a failed exchange} x {capturing custom logger, log.Stdlog, log.JSONlog} x {default, SetLogAuthData(false)} x {mail.Client with a built-in auth type, mail.Client with WithSMTPAuthCustom, smtp.Client.Auth as first command} x server announcing {the mechanism, no AUTH keyword, other mechanisms only, HELO only} (the server accepts the command regardless), debug logging on; if the connection survives a message with marker addresses is sent. A control group with WithLogAuthData shows that the monitor sees secrets when they are logged. distinct by case",
+		Rule: "all mechanisms (PLAIN, LOGIN, CRAM-MD5, XOAUTH2, SCRAM-SHA-1/-256, -PLUS over TLS) x random high-entropy credentials (also with '%', blanks, non-ASCII, base64 specials) x server scripts {success, wrong password, 535 / 454 / malformed (non-base64) challenge / unexpected extra challenge / the user-name prompt repeated in place of the expected challenge / disconnect at every step of the exchange, the client closed or quit - or its debug log switched on - by another goroutine between two steps, the debug log switched on only after an exchange that ran without it, Auth called again on the same smtp.Client after a failed exchange} x {capturing custom logger, log.Stdlog, log.JSONlog} x {default, SetLogAuthData(false)} x {mail.Client with a built-in auth type, mail.Client with WithSMTPAuthCustom, smtp.Client.Auth as first command} x server announcing {the mechanism, no AUTH keyword, other mechanisms only, HELO only} (the server accepts the command regardless), debug logging on; if the connection survives a message with marker addresses is sent. A control group with WithLogAuthData shows that the monitor sees secrets when they are logged. distinct by case",
 		Assumptions: []string{
 			"the server never echoes credentials in its reply texts (an echoing server is outside the quantifier)",
 			"forms searched: raw, base64 (std/url/raw), hex, Go-quoted, every client line of the AUTH exchange whose base64 decoding contains the secret, and that decoded text",
@@ -449,6 +461,12 @@ func runC16(r *ev.Run, rep *ev.ReplayDoc) ev.Summary {
 								c3.Via, c3.Fault, c3.FaultStep = "direct", cf, st2
 								cases = append(cases, c3)
 							}
+						}
+						// the exchange runs with the debug log off, which is switched on for the live connection afterwards
+						for _, via := range []string{"direct", "", "custom"} {
+							c4 := c
+							c4.Via, c4.Fault, c4.FaultStep = via, "client-debug-after", 0
+							cases = append(cases, c4)
 						}
 					}
 					if !c.TLS && !isPlus(mech) && (f == "" || st == 0) {
